@@ -1,5 +1,5 @@
 """C04 - consensus termination under timely delivery with at most f crashed members; honest messages never unjust."""
-import itertools, os, json
+import itertools, os, json, sys
 import vlib, qbft_common as qc
 from vlib import log
 
@@ -13,7 +13,42 @@ RULE = ("fault enumeration around the real qbft.Run with the real round timers (
 
 def cfg_of(t):
     r = t[0]
-    return ("tt_n%d_i%d.cfg" % (r["n"], r["inst"]), TT_TMPL % {"N": r["n"], "Inst": r["inst"]})
+    return ("tt_n%d_i%d.cfg" % (r["n"], r["inst"]), TT_TMPL % {"N": r["n"], "Inst": r["inst"], "Dev": "FALSE"})
+
+
+def cfg_of_dev(t):
+    r = t[0]
+    return ("ttdev_n%d_i%d.cfg" % (r["n"], r["inst"]), TT_TMPL % {"N": r["n"], "Inst": r["inst"], "Dev": "TRUE"})
+
+
+PROBE = os.path.join(vlib.VERIF, "checks", "c04_probe_eager_tie.json")
+
+
+def timed_probe(o, regenerate):
+    """Known finding C04-eager-timer-tie-desync: a behaviour of the timed design model (QBFTTimed: eager double-linear
+    timer, one member crashing inside its round-1 PRE-PREPARE broadcast, zero-latency same-instant ties) in which the
+    members desynchronise through zero-length rounds and decide later than one leader rotation after the fault.  The
+    behaviour is a TLC counterexample (regenerated from the model in the thorough tier, stored otherwise), replayed step
+    by step on the real qbft.Run with the REAL round timers and validated by the trace spec."""
+    sched = json.load(open(PROBE))
+    if regenerate:
+        d = vlib.scratch(o.pid, qc.FAMILY)
+        dump = os.path.join(d, "probe.json")
+        r = vlib.tlc(o.pid, qc.FAMILY, "QBFTTimedMC", "QBFTTimedMC_e4probe.cfg", timeout=900, workers=1, sdir=d,
+                     extra_args=["-dumpTrace", "json", dump])
+        if r.violation and os.path.exists(dump):
+            sys.path.insert(0, os.path.join(vlib.VERIF, "tools"))
+            import tt2script
+            sched = tt2script.convert(dump, 4, 0, "eager")
+            sched[0]["horizon"] = 60000
+            o.selftests.append({"control": "QBFTTimedMC_e4probe (eager timer, zero-latency ties, one crash) violates BoundedRounds: counterexample replayed on the code",
+                                "rejected_as_required": True})
+        else:
+            o.notes.append("timed model no longer yields the eager-timer tie counterexample: " + r.summary())
+    vlib.conformance(o, qc.FAMILY, "QBFTTimedTrace", cfg_of, "c04", [sched], tag="probe",
+                     dev_cfgs=[("C04-eager-timer-tie-desync", cfg_of_dev)])
+    if not any(k == "C04-eager-timer-tie-desync" for k, _ in o.known):
+        log("note: the C04-eager-timer-tie-desync probe no longer reproduces (the finding may have been repaired)")
 
 
 def scenario(n, inst, timer, offsets, lat, crashes, tie=0, inputs=None):
@@ -104,6 +139,13 @@ def run(tier, seed):
     r = vlib.tlc(pid, qc.FAMILY, "QBFTMC", "QBFTMC_H3s.cfg" if not thorough else "QBFTMC_H3r1.cfg", timeout=1500)
     vlib.require_mc_ok(r, "QBFTMC")
     o.add_mc("QBFTMC_H3s" if not thorough else "QBFTMC_H3r1", r)
+    # design check of the timed model (QBFTTimed): configurations that hold, and (thorough) the control that must not
+    timed = ["QBFTTimedMC_e4lat1.cfg", "QBFTTimedMC_e4nocrash.cfg"] + (["QBFTTimedMC_i4.cfg"] if thorough else [])
+    for cfg in timed:
+        r = vlib.tlc(pid, qc.FAMILY, "QBFTTimedMC", cfg, timeout=1500)
+        vlib.require_mc_ok(r, cfg)
+        o.add_mc(cfg, r)
+    timed_probe(o, regenerate=thorough)
     en = enumerate_n4(seed, thorough)
     if not thorough:
         rr = vlib.rng(seed, "c04/pick")
